@@ -165,7 +165,7 @@ impl Compiler {
 
     //@fn file=yarel/src/compiler.rs path=Compiler::push_loop
     //@  requires old(self).wf()
-    //@  ensures final(self).wf(), final(self).loop_stack@ == old(self).loop_stack@.push((old(self).chunk.code@.len() as usize, old(self).scope_depth))
+    //@  ensures final(self).wf(), final(self).loop_stack@ == old(self).loop_stack@.push((old(self).chunk.code@.len() as usize, old(self).scope_depth, old(self).try_depth))
     //@  ensures final(self).break_stack@.len() == old(self).break_stack@.len() + 1 && final(self).break_stack@.last()@.len() == 0
     //@  ensures final(self).break_stack@.subrange(0, old(self).break_stack@.len() as int) == old(self).break_stack@
     //@  ensures same_compiler_but_loops(*old(self), *final(self))
@@ -307,13 +307,20 @@ fn function_kind_is_initialiser(k: &FunctionKind) -> (r: bool) ensures r == (*k 
 #[verifier::external_body]
 fn opcode_u8(op: OpCode) -> (r: u8) ensures r == opcode_byte(op) { op as u8 }
 
+// n copies of one byte
+pub open spec fn repeat_byte(b: u8, n: int) -> Seq<u8> { Seq::new(if n > 0 { n as nat } else { 0 }, |i: int| b) }
+pub proof fn lemma_repeat_byte_push(b: u8, n: int)
+    requires n >= 0
+    ensures repeat_byte(b, n).push(b) =~= repeat_byte(b, n + 1)
+{}
+
 spec fn locals_same_shape(a: Seq<Local>, b: Seq<Local>) -> bool {
     a.len() == b.len() && forall|i: int| #![trigger a[i]] #![trigger b[i]] 0 <= i < a.len() ==> a[i].name == b[i].name && a[i].depth == b[i].depth
 }
 
 spec fn same_compiler_but_locals(a: Compiler, b: Compiler) -> bool {
     &&& a.function == b.function && a.kind == b.kind && a.upvalues == b.upvalues
-    &&& a.scope_depth == b.scope_depth && a.lambda_count == b.lambda_count && a.in_try_block == b.in_try_block
+    &&& a.scope_depth == b.scope_depth && a.lambda_count == b.lambda_count && a.try_depth == b.try_depth
     &&& a.loop_stack == b.loop_stack && a.break_stack == b.break_stack && a.chunk == b.chunk
 }
 
@@ -324,25 +331,25 @@ spec fn breaks_ok(c: Compiler) -> bool {
 
 spec fn same_compiler_but_loops(a: Compiler, b: Compiler) -> bool {
     &&& a.function == b.function && a.kind == b.kind && a.locals == b.locals && a.upvalues == b.upvalues
-    &&& a.scope_depth == b.scope_depth && a.lambda_count == b.lambda_count && a.in_try_block == b.in_try_block
+    &&& a.scope_depth == b.scope_depth && a.lambda_count == b.lambda_count && a.try_depth == b.try_depth
     &&& a.chunk == b.chunk
 }
 
 #[verifier::external_body]
-fn option_copied(o: Option<&(usize, usize)>) -> (r: Option<(usize, usize)>)
+fn option_copied(o: Option<&(usize, usize, usize)>) -> (r: Option<(usize, usize, usize)>)
     ensures o is None ==> r is None, o matches Some(p) ==> r == Some(*p),
 { o.copied() }
 
 spec fn same_compiler_but_code_locals(a: Compiler, b: Compiler) -> bool {
     &&& a.function == b.function && a.kind == b.kind && a.upvalues == b.upvalues
-    &&& a.scope_depth == b.scope_depth && a.lambda_count == b.lambda_count && a.in_try_block == b.in_try_block
+    &&& a.scope_depth == b.scope_depth && a.lambda_count == b.lambda_count && a.try_depth == b.try_depth
     &&& a.loop_stack == b.loop_stack && a.break_stack == b.break_stack
     &&& a.chunk.constants == b.chunk.constants && a.chunk.constant_map == b.chunk.constant_map
 }
 
 spec fn same_compiler_but_code(a: Compiler, b: Compiler) -> bool {
     &&& a.function == b.function && a.kind == b.kind && a.locals == b.locals && a.upvalues == b.upvalues
-    &&& a.scope_depth == b.scope_depth && a.lambda_count == b.lambda_count && a.in_try_block == b.in_try_block
+    &&& a.scope_depth == b.scope_depth && a.lambda_count == b.lambda_count && a.try_depth == b.try_depth
     &&& a.loop_stack == b.loop_stack && a.break_stack == b.break_stack
     &&& a.chunk.constants == b.chunk.constants && a.chunk.constant_map == b.chunk.constant_map
 }
@@ -431,7 +438,7 @@ impl Parser {
     //@  ensures forall|i: int| 0 <= i < old(self).compilers.len() - 1 ==> final(self).compilers[i] == old(self).compilers[i]
     //@  ensures final(self).cur().chunk == *final(r)
     //@  ensures final(self).cur().function == old(self).cur().function && final(self).cur().kind == old(self).cur().kind && final(self).cur().locals == old(self).cur().locals && final(self).cur().upvalues == old(self).cur().upvalues
-    //@  ensures final(self).cur().scope_depth == old(self).cur().scope_depth && final(self).cur().lambda_count == old(self).cur().lambda_count && final(self).cur().in_try_block == old(self).cur().in_try_block
+    //@  ensures final(self).cur().scope_depth == old(self).cur().scope_depth && final(self).cur().lambda_count == old(self).cur().lambda_count && final(self).cur().try_depth == old(self).cur().try_depth
     //@  ensures final(self).cur().loop_stack == old(self).cur().loop_stack && final(self).cur().break_stack == old(self).cur().break_stack
     //@  ensures final(self).errors == old(self).errors && final(self).panic_mode == old(self).panic_mode && final(self).previous == old(self).previous && final(self).current == old(self).current
     //@  ensures final(self).class_compilers == old(self).class_compilers && final(self).pushed == old(self).pushed && final(self).single_target_mode == old(self).single_target_mode
@@ -717,23 +724,38 @@ impl Parser {
 
     // break: the locals of the scopes being left must be discarded BEFORE control leaves the loop body, so that the
     // instruction after the loop is reached with the same operand-stack height as on the normal exit path.
+    //@fn file=yarel/src/compiler.rs path=Parser::emit_try_exits props=C04
+    //@  requires old(self).pwf(), outer_try_depth <= old(self).cur().try_depth
+    //@  ensures final(self).pwf(), old(self).same_but_code(final(self))
+    //@  ensures final(self).code() == old(self).code() + repeat_byte(opcode, old(self).cur().try_depth - outer_try_depth)
+    //@  loop 0 iter it
+    //@  loop 0 invariant it.snapshot.start == outer_try_depth, it.snapshot.end == old(self).cur().try_depth
+    //@  loop 0 invariant self.pwf(), old(self).same_but_code(self), self.code() == old(self).code() + repeat_byte(opcode, it.index@ as int)
+    //@  at loop0.end proof { lemma_repeat_byte_push(opcode, it.index@ as int); assert(self.code() =~= old(self).code() + repeat_byte(opcode, it.index@ + 1)); }
+    //@  at body.start proof { assert(old(self).code() + repeat_byte(opcode, 0) =~= old(self).code()); }
+    //@end
+
     //@fn file=yarel/src/compiler.rs path=Parser::break_statement props=C04,C06
+    //@  subst "OpCode::PopExcHandler as u8" => "opcode_u8(OpCode::PopExcHandler)"
     //@  requires old(self).pwf(), all_initialised(old(self).cur().locals@), old(self).code().len() < 0x4000_0000_0000_0000
     //@  requires old(self).cur().loop_stack@.len() == old(self).cur().break_stack@.len()
+    //@  requires old(self).cur().loop_stack@.len() > 0 ==> old(self).cur().loop_stack@.last().2 <= old(self).cur().try_depth && old(self).cur().try_depth < 0x1000_0000
     //@  ensures final(self).pwf(), old(self).has_error() ==> final(self).has_error()
     //@  ensures old(self).cur().loop_stack@.len() == 0 ==> final(self).has_error()
-    //@  ensures old(self).cur().loop_stack@.len() > 0 ==> final(self).code() == old(self).code() + scope_end_code(old(self).cur().locals@, old(self).cur().loop_stack@.last().1) + seq![opcode_byte(OpCode::Jump), 0xffu8, 0xffu8]
+    //@  ensures old(self).cur().loop_stack@.len() > 0 ==> final(self).code() == old(self).code() + repeat_byte(opcode_byte(OpCode::PopExcHandler), old(self).cur().try_depth - old(self).cur().loop_stack@.last().2) + scope_end_code(old(self).cur().locals@, old(self).cur().loop_stack@.last().1) + seq![opcode_byte(OpCode::Jump), 0xffu8, 0xffu8]
     //@  ensures old(self).cur().loop_stack@.len() > 0 ==> final(self).cur().break_stack@.len() == old(self).cur().break_stack@.len() && final(self).cur().break_stack@.last()@ == old(self).cur().break_stack@.last()@.push((final(self).code().len() - 2) as usize)
     //@  ensures final(self).cur().locals@ == old(self).cur().locals@
     //@  at body.start proof { if old(self).cur().loop_stack@.len() > 0 { lemma_drop_count_le(old(self).cur().locals@, old(self).cur().loop_stack@.last().1); } }
     //@end
 
     //@fn file=yarel/src/compiler.rs path=Parser::continue_statement props=C04,C06
+    //@  subst "OpCode::PopExcHandler as u8" => "opcode_u8(OpCode::PopExcHandler)"
     //@  requires old(self).pwf(), all_initialised(old(self).cur().locals@), old(self).code().len() < 0x2000_0000_0000_0000
     //@  requires forall|i: int| 0 <= i < old(self).cur().loop_stack@.len() ==> (#[trigger] old(self).cur().loop_stack@[i]).0 <= old(self).code().len()
+    //@  requires old(self).cur().loop_stack@.len() > 0 ==> old(self).cur().loop_stack@.last().2 <= old(self).cur().try_depth && old(self).cur().try_depth < 0x1000_0000
     //@  ensures final(self).pwf(), old(self).has_error() ==> final(self).has_error()
     //@  ensures old(self).cur().loop_stack@.len() == 0 ==> final(self).has_error()
-    //@  ensures old(self).cur().loop_stack@.len() > 0 ==> ({ let pops = scope_end_code(old(self).cur().locals@, old(self).cur().loop_stack@.last().1); let n = old(self).code().len() + pops.len(); final(self).code().len() == n + 3 && final(self).code().subrange(0, n as int) == old(self).code() + pops && final(self).code()[n as int] == opcode_byte(OpCode::Loop) && (final(self).has_error() || n + 3 - u16_of(final(self).code()[n as int + 1], final(self).code()[n as int + 2]) == old(self).cur().loop_stack@.last().0) })
+    //@  ensures old(self).cur().loop_stack@.len() > 0 ==> ({ let pops = repeat_byte(opcode_byte(OpCode::PopExcHandler), old(self).cur().try_depth - old(self).cur().loop_stack@.last().2) + scope_end_code(old(self).cur().locals@, old(self).cur().loop_stack@.last().1); let n = old(self).code().len() + pops.len(); final(self).code().len() == n + 3 && final(self).code().subrange(0, n as int) == old(self).code() + pops && final(self).code()[n as int] == opcode_byte(OpCode::Loop) && (final(self).has_error() || n + 3 - u16_of(final(self).code()[n as int + 1], final(self).code()[n as int + 2]) == old(self).cur().loop_stack@.last().0) })
     //@  ensures final(self).cur().locals@ == old(self).cur().locals@
     //@  before_stmt "self.emit_loop(" proof { lemma_drop_count_le(old(self).cur().locals@, scope_depth); }
     //@end
